@@ -91,9 +91,9 @@ func mustURL(s string) *url.URL {
 
 // ----- sso-proxy -----
 // proxy.New builds, for EVERY upstream, newProvider(...) = NewSingleFlightProvider(providers.New(
-// type, providerData, statsd), statsd) with the same provider URL, slug and client id
-// (internal/proxy/proxy.go:30-38, options.go:162-193) and calls it with that upstream's
-// AllowedGroups (oauthproxy.go:619). The world does the same with a scripted inner provider.
+// type, providerData, statsd), statsd) (internal/proxy/proxy.go:30-38, options.go:162-193) and calls
+// it with that upstream's AllowedGroups (oauthproxy.go:619). The world does the same with one
+// scripted inner provider per upstream; the upstreams differ in their provider slug.
 type proxyInner struct {
 	inner
 	data *proxyp.ProviderData
@@ -123,8 +123,14 @@ func (f *proxyInner) RefreshSession(s *sessions.SessionState, allowed []string) 
 	return a.v.b, a.err
 }
 
-// the allowed groups of the upstreams of the deployment (upstream i <-> wrapper object i)
-var upstreamAllowed = [][]string{{"team-a"}, {"team-b"}, {"team-a", "team-c"}}
+// the upstreams of the deployment (upstream i <-> wrapper object i). Every wrapper object of a world
+// has its OWN scripted inner provider, so it must stand for a different authenticator endpoint: the
+// upstreams use different provider slugs (upstream option provider_slug) — two SSOProviders with
+// equal ProviderData would be one and the same function and could not be scripted independently.
+// Upstreams 0 and 1 allow the same groups: the same cookie checked on both asks two DIFFERENT
+// endpoints the same-looking question (same composite key) and must be executed twice.
+var upstreamAllowed = [][]string{{"team-a"}, {"team-a"}, {"team-b", "team-c"}}
+var upstreamSlug = []string{"google", "okta", "cognito"}
 
 type proxyWorld struct {
 	ps []*proxyp.SingleFlightProvider
@@ -135,7 +141,7 @@ func newProxyWorld(e **engine, n int) *proxyWorld {
 	var inners []*proxyInner
 	for i := 0; i < n; i++ {
 		in := &proxyInner{data: &proxyp.ProviderData{
-			ProviderName: "sso", ProviderSlug: "sso", ClientID: "client-id", ClientSecret: "client-secret",
+			ProviderName: "sso", ProviderSlug: upstreamSlug[i%len(upstreamSlug)], ClientID: "client-id", ClientSecret: "client-secret",
 			ProviderURL: mustURL("https://sso-auth.example.com"), ProviderURLInternal: mustURL("https://sso-auth.internal.example.com"),
 		}}
 		in.wid = i
